@@ -58,8 +58,7 @@ FnsCT == {Fn("ret", 0, "v1"), Fn("raise", 0, "e1"), Fn("never", 0, "-"), Fn("dfi
 ScenCT == {Busy(Mk(f, T, ex, sel, st, FALSE), b, dt) : f \in FnsCT, T \in 1..4, ex \in {{}, {2}, {3, 5}}, sel \in 0..1,
                                                        st \in {NoStop} \cup 0..5, b \in 0..3, dt \in 1..4}
 
-ScenAC == ScenA \cup ScenC
-ScenACT == ScenAT \cup ScenCT
+NoBusy == {}
 
 \* ---- R: scenarios for the real-reactor tier: all event times pairwise distinct, >= 1 unit apart ---
 Wide(s) == LET ts == <<FnTime(s), s.T, s.stopAt>> IN
